@@ -29,6 +29,8 @@ fn shapes() -> Vec<(&'static str, u8, Vec<Op>)> {
         ("parallel-and-loop", 2, vec![Edge(0, 1), Edge(0, 1), Edge(0, 0)]),
         ("diamond", 4, vec![Edge(0, 1), Edge(0, 2), Edge(1, 3), Edge(2, 3)]),
         ("reused-ids", 3, vec![Edge(0, 1), Edge(1, 2), Edge(0, 2), RemoveEdge(0), RenewNode(1), Edge(0, 1), Edge(1, 2)]),
+        // a new node (slot 3) takes the id freed by an edge, then gets edges of its own
+        ("edge-id-reused-by-node", 3, vec![Edge(0, 1), Edge(1, 2), RemoveEdge(0), AddNode, Edge(3, 1), Edge(0, 3)]),
     ]
 }
 
@@ -511,7 +513,7 @@ pub fn run(args: &Args) -> i32 {
     }
     report.set("evaluations", json!(searches.load(AO::SeqCst)));
     report.set("distinct_nontrivial", json!(nontrivial.len()));
-    report.set("rule", json!("graph family (8 shapes [thorough: + every history of length <= 3 on two and <= 2 on three node slots] x 3 property patterns) x every search kind and origin (bfs/dfs from/to every element, path between every ordered pair of nodes, elements) x 7 condition variants (3 of them prune the traversal: not_beyond keys, not_beyond ids, beyond keys) x 15 order_by lists x every (offset, limit) in ([0..n+3] + {2^64-2, 2^64-1})^2; one evaluation = one search on the real Db. distinct_nontrivial = distinct (graph, unsliced result sequence) with at least 2 elements"));
+    report.set("rule", json!("graph family (9 shapes [thorough: + every history of length <= 3 on two and <= 2 on three node slots] x 3 property patterns) x every search kind and origin (bfs/dfs from/to every element, path between every ordered pair of nodes, elements) x 7 condition variants (3 of them prune the traversal: not_beyond keys, not_beyond ids, beyond keys) x 15 order_by lists x every (offset, limit) in ([0..n+3] + {2^64-2, 2^64-1})^2; one evaluation = one search on the real Db. distinct_nontrivial = distinct (graph, unsliced result sequence) with at least 2 elements"));
     report.set("exhaustive", json!(true));
     report.set("graphs", json!(fam.len()));
     report.set("graph_names", json!(fam.iter().map(|f| f.0.clone()).take(40).collect::<Vec<_>>()));
